@@ -1,10 +1,10 @@
 #!/usr/bin/env bash
-# tools/harmless_import.sh <worktree-dir> <PROPERTY-ID>
+# tools/harmless_import.sh <worktree-dir> <PROPERTY-ID> [tag]
 # Takes the behaviour-preserving edits a sub-agent left in <worktree>/_seed/edit{1,2,3}.diff, confirms each independently
 # (applies to /repo HEAD, pinned suite unchanged), stores it under /verif/harmless/<PID>-<k>/ and runs the property's check
 # against it on a scratch copy: the check must exit 0.
 set -u
-W="$1"; PID="$2"
+W="$1"; PID="$2"; TAG="${3:-}"
 HERE="$(cd "$(dirname "${BASH_SOURCE[0]}")/.." && pwd)"
 for k in 1 2 3; do
   P="$W/_seed/edit$k.diff"
@@ -14,13 +14,13 @@ for k in 1 2 3; do
   if ! (cd "$T/repo" && patch -s -p1 < "$P"); then echo "$PID-$k: patch does not apply"; rm -rf "$T"; continue; fi
   TESTS="$(cd "$T/repo" && timeout 600 /venv/bin/python -m pytest -p no:cacheprovider --timeout=900 -q 2>&1 | tail -1)"
   case "$TESTS" in *"14 failed, 87 passed"*) ;; *) echo "$PID-$k: REJECT, test results changed: $TESTS"; rm -rf "$T"; continue;; esac
-  mkdir -p "$HERE/harmless/$PID-$k"
-  cp "$P" "$HERE/harmless/$PID-$k/patch.diff"
-  [ -f "$W/_seed/notes.md" ] && cp "$W/_seed/notes.md" "$HERE/harmless/$PID-$k/notes.md"
+  mkdir -p "$HERE/harmless/$PID-$TAG$k"
+  cp "$P" "$HERE/harmless/$PID-$TAG$k/patch.diff"
+  [ -f "$W/_seed/notes.md" ] && cp "$W/_seed/notes.md" "$HERE/harmless/$PID-$TAG$k/notes.md"
   cd "$HERE"
   OUT="$(VERIF_REPO="$T/repo" VERIF_EVIDENCE_DIR="$T/evidence" VERIF_REPLAY_DIR="$T/replays" ./check "$PID" 2>&1)"; RC=$?
-  echo "$PID-$k check exit=$RC  ($(grep -c '^[-+][^-+]' "$P") changed lines)"
+  echo "$PID-$TAG$k check exit=$RC  ($(grep -c '^[-+][^-+]' "$P") changed lines)"
   echo "$OUT" | grep -E "^VIOLATION|^UNDECIDED|^CHECKER-ERROR" | sed 's/replay=[^ ]*//' | cut -c1-260 | head -6
-  printf '{"property": "%s", "check_exit": %s, "tests_with_change": "%s"}\n' "$PID" "$RC" "$TESTS" > "$HERE/harmless/$PID-$k/meta.json"
+  printf '{"property": "%s", "check_exit": %s, "tests_with_change": "%s"}\n' "$PID" "$RC" "$TESTS" > "$HERE/harmless/$PID-$TAG$k/meta.json"
   rm -rf "$T"
 done
